@@ -961,7 +961,7 @@ def tag_of(case, o):
 
 
 def run(ck: common.Check):
-    ck.prove(["GeffProps.C16", "GeffProps.C16Links"])
+    ck.prove(["GeffProps.C16", "GeffProps.C16Links", "GeffProps.C16Cli"])
     drv = ck.driver()
     if os.path.isdir("/dev/shm") and os.access("/dev/shm", os.W_OK):
         tempfile.tempdir = "/dev/shm"           # conversions write hundreds of small zarr files
